@@ -10,7 +10,9 @@ def main(tier):
     v = Verdict("C05", tier)
     ev = dict(tlc=[])
     # design level: the fail-safe decompressor over a nondeterministic decoder never reports end of data early
-    for cfg in (["CompFailSafe.quick.cfg"] if tier == "quick" else ["CompFailSafe.quick.cfg", "CompFailSafe.thorough.cfg"]):
+    # (CompFailSafe.live.cfg: the same model under weak fairness of the loop, liveness property CallReturns)
+    for cfg in (["CompFailSafe.quick.cfg", "CompFailSafe.live.cfg"] if tier == "quick"
+                else ["CompFailSafe.quick.cfg", "CompFailSafe.live.cfg", "CompFailSafe.thorough.cfg"]):
         r = tlc("CompFailSafe", cfg, "c05-" + cfg, workers=8, timeout=3000, coverage=False)
         ev["tlc"].append(dict(module="CompFailSafe", cfg=cfg, generated=r.generated, distinct=r.distinct, violation=r.violation))
         if r.violation:
